@@ -8,7 +8,7 @@ From Coq Require Import List NArith Bool Arith.
 From Coq Require Strings.String.
 Import Coq.Strings.String.StringSyntax.
 From Acg Require Import Base.Outcome Base.Str Model.Flow Model.Linear Model.LinearCheck
-  Proofs.LinearSem Proofs.LinearRaw Proofs.LinearCheck Proofs.LinearMain.
+  Proofs.LinearSem Proofs.LinearRaw Proofs.LinearCheck Proofs.LinearMain Proofs.LinearPasses.
 Import ListNotations.
 Open Scope nat_scope.
 
@@ -79,9 +79,16 @@ Theorem C26_targets_exist_partial : forall f subs, validate f subs = true ->
 Proof. exact validated_targets_exist. Qed.
 Print Assumptions C26_targets_exist_partial.
 
-(** [subroutine_shape] (FULL STATEMENT, not proved: forall f, wf_flow f = true ->
-    exists subs, linearize_to_subroutines f = Ok subs, i.e. no assert / contract of
-    linear.py can fire) is covered by the correspondence stream only. *)
+(** [subroutine_shape] — FULL, for all well-formed flows: no assert, precondition or
+    postcondition of linear.py fires ([linearize_to_subroutines f] is never a [Crash];
+    in particular the [Subroutine] precondition and the consecutive-labels [@ensure]
+    hold), and the subroutine heads are labelled exactly 0, 1, 2, ... in order
+    (0 being the initial [state_] of the generated iterator). *)
+Theorem C26_subroutine_shape : forall f, wf_flow f = true ->
+  exists subs, linearize_to_subroutines f = Ok subs
+               /\ map sub_head_label subs = map Some (seq 0 (length subs)).
+Proof. exact subroutine_shape. Qed.
+Print Assumptions C26_subroutine_shape.
 
 (** Non-vacuity: a flow with nested loops, if/else, empty else, a trailing loop and
     yields is well-formed, is linearised without a crash into ten subroutines with
